@@ -110,11 +110,17 @@ contract("parglare.parser.Token.end_position",
 
 contract("parglare.grammar.StringRecognizer.__call__",
          params={"self": "ref[StringRecognizer]", "in_str": "str", "pos": "int"}, returns="opt[str]",
-         requires=["0 <= pos", "implies(not self.ignore_case, self.value_cmp == self.value)"],
+         # (class invariant established by __init__: value_cmp is the text, lower-cased under ignore_case)
+         requires=["0 <= pos", "implies(not self.ignore_case, self.value_cmp == self.value)",
+                   "implies(self.ignore_case, self.value_cmp == self.value.lower())"],
          ensures=[
              # case-sensitive: a match is the text at pos, literally, and nothing else matches
              "implies(not self.ignore_case, (result is not None) == (in_str[pos:pos + len(self.value)] == self.value))",
-             "implies(not self.ignore_case and result is not None, result == in_str[pos:pos + len(self.value)])",
+             # ignore_case: the same up to str.lower()
+             "implies(self.ignore_case, (result is not None) == "
+             "(in_str[pos:pos + len(self.value)].lower() == self.value.lower()))",
+             # C08: what is returned is what stands in the input (in both modes), so a leaf's value is input[start:end]
+             "implies(result is not None, result == in_str[pos:pos + len(self.value)])",
          ],
          modifies=[], properties=("C08", "C19"))
 
